@@ -303,6 +303,43 @@ theorem global_timer_spans_retries (c : Cfg) (ar aq : Nat) (l : List Label) :
   have := no_rearm c ar aq (reach c ar aq l) lb (inv_run c ar aq l) hq hp
   simpa [reach, run, List.foldl_append] using this
 
+/-! ### late response during the back-off (proxy6) -/
+
+/-- **backoff_detached**: in every reachable state in which the worker sleeps in `doRetry`'s back-off (phase `Retry`), the
+upstream request that was given up is detached — the stream's current request owns no client stream and carries no
+`setupRetry` mark (regenerated `processError`: op `detachRetried`, `Gen.ProxyError.detachFresh`) -/
+theorem backoff_detached (c : Cfg) (ar aq : Nat) (l : List Label) (hb : backoff (reach c ar aq l) = true) :
+    (reach c ar aq l).up = some none ∧ (reach c ar aq l).setupRetry = false ∧ liveCount (reach c ar aq l).streams = 0 := by
+  have h := inv_run c ar aq l
+  simp only [backoff, Bool.and_eq_true, beq_iff_eq] at hb
+  have hcl : (reach c ar aq l).cleaned = false := inv_not_cleaned h hb.1
+  exact ⟨(h.k26 hcl hb.2).2.2.2, (h.k7 hcl).1, h.k23 hcl (Or.inr hb.2)⟩
+
+/-- **late_response_ignored**: on every schedule, a response frame of a client stream that is delivered while the worker
+sleeps in the back-off (the attempt was given up for a retry with the frame already in flight: per-try timeout, upstream
+reset, retriable status) changes NOTHING — it is not accepted, so it can neither be forwarded in place of the next
+attempt's answer nor leave that attempt without anybody to reset it.  (Together with `sender_once`, `outcome_total`,
+`clean_once` and C10's ledger theorems, which quantify over schedules containing the label.) -/
+theorem late_response_ignored (c : Cfg) (ar aq : Nat) (l : List Label) (k : Nat) (d t : Bool) :
+    reach c ar aq (l ++ [.lateResp k d t]) = reach c ar aq l := by
+  simp only [reach, run, List.foldl_append, List.foldl_cons, List.foldl_nil, step]
+  exact lateBackoff_noop c ar aq _ k d t (inv_run c ar aq l)
+
+/-- a back-off state is reachable: per-try timeout of attempt 0 on a retrying route, the worker has handled the reset -/
+example : backoff (reach { retryOn := true, numRetries := 1, tryTimeout := true } 0 0
+    (List.replicate 12 .work ++ [.perTryFire, .work])) = true := by decide
+/-- the frame of attempt 0 lands there, attempt 1 is created and answers: the client gets attempt 1's reply, everything is given back -/
+example : ((fun (s : S) => (s.trace, s.hTok, s.cleaned, s.upActive))
+    (reach { retryOn := true, numRetries := 1, tryTimeout := true } 0 0
+      (List.replicate 12 .work ++ [.perTryFire, .work, .lateResp 0 true false, .work, .work, .upResp 1 200 false false] ++
+        List.replicate 4 .work))) =
+    ([.un 0, .uh 0 true, .ur 0, .un 1, .uh 1 true, .dh 200 true, .log 200 4], .att 1, true, 0) := by decide
+/-- the guard is what protects: were the given-up request still the current one (as before the fix `detachRetriedRequest`:
+`processError` only cleared its `setupRetry` mark), the frame WOULD be accepted in that state -/
+example : ((fun (s : S) => (lateBackoff { s with up := some (some 0) } 0 true false).urr)
+    (reach { retryOn := true, numRetries := 1, tryTimeout := true } 0 0 (List.replicate 12 .work ++ [.perTryFire, .work]))) = true := by
+  decide
+
 -- non-vacuity: concrete schedules reaching the situations the theorems talk about
 /-- a parked worker exists: request sent, upstream silent -/
 example : blocked (reach {} 0 0 (List.replicate 12 .work)) = true := by decide
